@@ -17,3 +17,25 @@ Print Assumptions C18_meta_complete.
 Theorem C18_identity : forall s, existsb is_meta_character s = false -> escape s = s.
 Proof. exact escape_identity. Qed.
 Print Assumptions C18_identity.
+
+From WaxModel Require Import Regex Encode Variance Fold Rule Glob.
+From WaxProofs Require Import EscapeFacts.
+
+(* the property end to end, in the model of the whole build pipeline: for every string without a backslash, without two
+   adjacent separators and shorter than the invariant size limit, the escaped string builds (it parses - the fuel of the
+   parser is proved adequate -, passes every rule and compiles), the glob reports the string as its invariant text, and
+   its program matches the string and no other text - whatever the case-folding table *)
+Theorem C18_escape_builds_a_glob_for_exactly_the_text : forall s,
+  nobs s = true -> no_double_sep s = true -> blen s < MAX_INVARIANT_SIZE ->
+  exists t r, build (escape s) = BuildOk t r /\
+    (forall has_casing, exists txt, text_variance has_casing t = Ok (Inv txt) /\ text_to_string txt = s) /\
+    (forall orbit w, sem orbit r w <-> w = s).
+Proof. exact escape_builds_exactly. Qed.
+Print Assumptions C18_escape_builds_a_glob_for_exactly_the_text.
+
+(* the premises are satisfiable by a text full of meta-characters: a*b/[c]?{d,e} *)
+Example C18_nonvacuous :
+  let s := [97; 42; 98; 47; 91; 99; 93; 63; 123; 100; 44; 101; 125] in
+  nobs s = true /\ no_double_sep s = true /\ blen s < MAX_INVARIANT_SIZE /\
+  match build (escape s) with BuildOk _ _ => True | _ => False end.
+Proof. cbv zeta. repeat split; vm_compute; try reflexivity; exact I. Qed.
